@@ -195,6 +195,7 @@ def oracle(case):
             out = run_op(m, op)
             if name == 'reseed':
                 seeded[i] = True
+                last_sample.pop(i, None)      # re-seeding restarts the stream: the next sample may repeat an earlier one
             logs[i].append((op, out))
             require(same_state(before, np.random.get_state()), 'step %d: %s on the seeded %s model changed the global NumPy random state' % (step, name, kind),
                     tag='global-state', detail={'step': step})
